@@ -203,10 +203,10 @@ variable {K O : Type} [DecidableEq K]
 variable (key : O → K) (ver : O → Option Int) (acc : O → Bool)
 
 theorem ccut_mk (w : CW K O) (items' : Items K O) (r l : Bool) (a' b' c' : Nat) (st : Option StopKind)
-    (pub : List (Ev O)) (lost' : List Nat) (k : K) (s : Nat) (hs : s ≤ w.hist.length)
+    (pub : List (Ev O)) (base' : Items K O) (lost' : List Nat) (k : K) (s : Nat) (hs : s ≤ w.hist.length)
     (hl : lookup k items' = view acc (w.state key ver s k))
     (hp : ∀ i, s ≤ i → ∀ e, w.hist[i]? = some e → key e.obj = k → a' ≤ i ∨ i ∈ lost') :
-    CCut key ver acc ⟨w.hist, items', r, l, a', b', c', st, pub, lost'⟩ k s := ⟨hs, hl, hp⟩
+    CCut key ver acc ⟨w.hist, items', r, l, a', b', c', st, pub, base', lost'⟩ k s := ⟨hs, hl, hp⟩
 
 /-- an older (or absent) cached entry is always replaced by the event's outcome -/
 theorem capply_older (a : AMap K O) (e : Ev O) (v : Int) (hv : ver e.obj = some v) (cur : Option (Entry O))
@@ -245,10 +245,10 @@ theorem cinv_apply (w : CW K O) (hi : CInv key ver acc w) (hen : w.enabled key v
     · subst hk
       rcases Nat.lt_or_ge w.a s with hcs | hsc
       · rcases capply_reflected key ver acc (w.state key ver w.a) e v hv (lookup (key e.obj) w.items) with h1 | ⟨h1, _⟩
-        · refine ⟨w.a + 1, ccut_mk key ver acc w _ _ _ _ _ _ _ _ _ _ _ (by omega) ?_ (fun i hi' _ _ _ => Or.inl hi')⟩
+        · refine ⟨w.a + 1, ccut_mk key ver acc w _ _ _ _ _ _ _ _ _ _ _ _ (by omega) ?_ (fun i hi' _ _ _ => Or.inl hi')⟩
           show lookup (key e.obj) (doUpdate key ver acc w.items e.t e.obj).1 = _
           rw [doUpdate_own key ver _ _ _ _ v hv, h1, state_succ key ver w _ _ he]
-        · refine ⟨s, ccut_mk key ver acc w _ _ _ _ _ _ _ _ _ _ _ hs ?_ (fun i hi' e' he' hk' => Or.inl (by show w.a + 1 ≤ i; omega))⟩
+        · refine ⟨s, ccut_mk key ver acc w _ _ _ _ _ _ _ _ _ _ _ _ hs ?_ (fun i hi' e' he' hk' => Or.inl (by show w.a + 1 ≤ i; omega))⟩
           show lookup (key e.obj) (doUpdate key ver acc w.items e.t e.obj).1 = _
           rw [doUpdate_own key ver _ _ _ _ v hv, h1]; exact hl
       · -- the cached entry stems from a change before `s ≤ a`: it is older than this one (whatever was lost
@@ -259,11 +259,11 @@ theorem cinv_apply (w : CW K O) (hi : CInv key ver acc w) (hen : w.enabled key v
           obtain ⟨hps, _⟩ := view_some_eq hl.symm
           obtain ⟨ic, ec, hic, hec, _, hvc, _⟩ := state_some_last key ver w hvs' s hs (key e.obj) c hps
           exact hi.mono ic w.a ec e c.ver v (by omega) hec he hvc hv
-        refine ⟨w.a + 1, ccut_mk key ver acc w _ _ _ _ _ _ _ _ _ _ _ (by omega) ?_ (fun i hi' _ _ _ => Or.inl hi')⟩
+        refine ⟨w.a + 1, ccut_mk key ver acc w _ _ _ _ _ _ _ _ _ _ _ _ (by omega) ?_ (fun i hi' _ _ _ => Or.inl hi')⟩
         show lookup (key e.obj) (doUpdate key ver acc w.items e.t e.obj).1 = _
         rw [doUpdate_own key ver _ _ _ _ v hv, capply_older key ver acc (w.state key ver w.a) e v hv _ hold,
           state_succ key ver w _ _ he]
-    · refine ⟨s, ccut_mk key ver acc w _ _ _ _ _ _ _ _ _ _ _ hs ?_ ?_⟩
+    · refine ⟨s, ccut_mk key ver acc w _ _ _ _ _ _ _ _ _ _ _ _ hs ?_ ?_⟩
       · show lookup k (doUpdate key ver acc w.items e.t e.obj).1 = _
         rw [doUpdate_frame key ver _ _ _ _ k hk]; exact hl
       · intro i hi' e' he' hk'
@@ -289,7 +289,7 @@ theorem cinv_drop (w : CW K O) (hi : CInv key ver acc w) (hen : w.enabled key ve
   · intro h; rw [show w.ready = false from h] at hr; cases hr
   · intro _ k
     obtain ⟨s, hs, hl, hp⟩ := hi.cut hr k
-    refine ⟨s, ccut_mk key ver acc w _ _ _ _ _ _ _ _ _ _ _ hs hl ?_⟩
+    refine ⟨s, ccut_mk key ver acc w _ _ _ _ _ _ _ _ _ _ _ _ hs hl ?_⟩
     intro i hi' e' he' hk'
     show w.a + 1 ≤ i ∨ i ∈ w.a :: w.lost
     rcases hp i hi' e' he' hk' with h1 | h1
@@ -314,8 +314,9 @@ theorem cinv_listApplied (w : CW K O) (j : Nat) (plist : List O) (hi : CInv key 
   -- a cut at the snapshot index `j`
   have atJ : lookup k (doSync key ver acc w.items plist).1 = view acc (w.state key ver j k) →
       ∃ s, CCut key ver acc ⟨w.hist, (doSync key ver acc w.items plist).1, true, true, j, j, j, w.stopped,
-        (if w.ready then w.published ++ (doSync key ver acc w.items plist).2 else w.published), []⟩ k s :=
-    fun h => ⟨j, ccut_mk key ver acc w _ _ _ _ _ _ _ _ _ k j hj h (fun i hi' _ _ _ => Or.inl hi')⟩
+        (if w.ready then w.published ++ (doSync key ver acc w.items plist).2 else w.published),
+        (if w.ready then w.base else (doSync key ver acc w.items plist).1), []⟩ k s :=
+    fun h => ⟨j, ccut_mk key ver acc w _ _ _ _ _ _ _ _ _ _ k j hj h (fun i hi' _ _ _ => Or.inl hi')⟩
   by_cases hr : w.ready = true
   · obtain ⟨s, hs, hl, hp⟩ := hi.cut hr k
     cases hP : w.state key ver j k with
@@ -335,7 +336,7 @@ theorem cinv_listApplied (w : CW K O) (j : Nat) (plist : List O) (hi : CInv key 
             apply atJ
             rw [hnow, hc, heq, hps]
             simp [csync, view, hacc]
-          · refine ⟨s, ccut_mk key ver acc w _ _ _ _ _ _ _ _ _ k s hs ?_ (fun i hi' _ _ _ => Or.inl (by show j ≤ i; omega))⟩
+          · refine ⟨s, ccut_mk key ver acc w _ _ _ _ _ _ _ _ _ _ k s hs ?_ (fun i hi' _ _ _ => Or.inl (by show j ≤ i; omega))⟩
             show lookup k (doSync key ver acc w.items plist).1 = _
             rw [hnow, hP, hc, hps]; simp [csync, hv]
   · have hr' : w.ready = false := by simpa using hr
@@ -382,6 +383,49 @@ theorem creach_inv {w : CW K O} (h : CReach key ver acc w) : CInv key ver acc w 
   induction h with
   | init => exact cinv_init key ver acc
   | step w l _ hen ih => exact cinv_step key ver acc w l ih hen
+
+/-- the controller cache's item list stays well formed (one entry per key) -/
+theorem creach_wf {w : CW K O} (h : CReach key ver acc w) : WF key w.items := by
+  induction h with
+  | init => exact WF_nil key
+  | step w l _ _ ih =>
+    cases l with
+    | apply =>
+      simp only [CW.step]
+      cases w.hist[w.a]? with
+      | none => exact ih
+      | some e => exact doUpdate_WF key ver acc _ _ _ ih
+    | listApplied j plist => exact doSync_WF key ver acc _ _ ih
+    | _ => exact ih
+
+/-- the published stream is the cache's own history since Ready(): replayed in order on the content the cache had
+when Ready() was closed (`base`), the events published so far give exactly the cache's current content -/
+theorem published_replays {w : CW K O} (h : CReach key ver acc w) :
+    w.ready = true → replay key ver w.published (abs w.base) = some (abs w.items) := by
+  induction h with
+  | init => intro h; cases h
+  | step w l hreach hen ih =>
+    cases l with
+    | apply =>
+      simp only [CW.step]
+      cases he : w.hist[w.a]? with
+      | none => exact ih
+      | some e =>
+        intro hr
+        show replay key ver (w.published ++ (doUpdate key ver acc w.items e.t e.obj).2) (abs w.base) = _
+        rw [replay_append, ih hr]
+        exact doUpdate_replay key ver acc w.items e.t e.obj
+    | listApplied j plist =>
+      intro _
+      simp only [CW.step]
+      by_cases hr : w.ready = true
+      · simp only [hr, if_true]
+        rw [replay_append, ih hr]
+        exact doSync_replay key ver acc w.items plist (creach_wf key ver acc hreach)
+      · have hr' : w.ready = false := by simpa using hr
+        have hp := ((creach_inv key ver acc hreach).notready hr').2.2.2.2.2
+        simp [hr', hp, replay]
+    | _ => exact ih
 
 end
 end KC
